@@ -338,16 +338,82 @@ func (c *fileCtx) block(list []ast.Stmt) {
 
 func (c *fileCtx) yieldText(pos token.Pos, kind string) string {
 	id := newSite(c.fset, pos, kind, c.fn)
-	if kind == "store" {
+	if kind == "store" || kind == "hot" {
 		return fmt.Sprintf("%s.YieldW(%d)", alias, id)
 	}
 	return fmt.Sprintf("%s.Yield(%d)", alias, id)
 }
 
+// hotStmt: the statement itself (not nested bodies) performs a synchronisation
+// operation — a sync/atomic call, a method of a sync type (Mutex, RWMutex, Map, Pool,
+// Once, WaitGroup), or an atomic.* value's method. Such statements get a yield of
+// the "store" kind, which the store-biased schedule source concentrates on: logic
+// bugs around correctly synchronised state need preemptions exactly there.
+func (c *fileCtx) hotStmt(st ast.Stmt) bool {
+	if c.info == nil {
+		return false
+	}
+	var exprs []ast.Expr
+	switch n := st.(type) {
+	case *ast.ExprStmt:
+		exprs = []ast.Expr{n.X}
+	case *ast.AssignStmt:
+		exprs = append(append(exprs, n.Lhs...), n.Rhs...)
+	case *ast.ReturnStmt:
+		exprs = n.Results
+	case *ast.DeferStmt:
+		exprs = []ast.Expr{n.Call}
+	case *ast.IfStmt:
+		exprs = []ast.Expr{n.Cond}
+		if a, ok := n.Init.(*ast.AssignStmt); ok {
+			exprs = append(exprs, a.Rhs...)
+		}
+	case *ast.DeclStmt:
+		if gd, ok := n.Decl.(*ast.GenDecl); ok {
+			for _, sp := range gd.Specs {
+				if vs, ok := sp.(*ast.ValueSpec); ok {
+					exprs = append(exprs, vs.Values...)
+				}
+			}
+		}
+	case *ast.LabeledStmt:
+		return c.hotStmt(n.Stmt)
+	default:
+		return false
+	}
+	hot := false
+	for _, e := range exprs {
+		if e == nil {
+			continue
+		}
+		ast.Inspect(e, func(x ast.Node) bool {
+			switch y := x.(type) {
+			case *ast.FuncLit:
+				return false
+			case *ast.CallExpr:
+				if sel, ok := y.Fun.(*ast.SelectorExpr); ok {
+					if obj := c.info.Uses[sel.Sel]; obj != nil && obj.Pkg() != nil {
+						switch obj.Pkg().Path() {
+						case "sync/atomic", "sync":
+							hot = true
+						}
+					}
+				}
+			}
+			return !hot
+		})
+	}
+	return hot
+}
+
 func (c *fileCtx) stmtInList(st ast.Stmt) {
 	// R1
 	if _, isEmpty := st.(*ast.EmptyStmt); !isEmpty {
-		c.insert(st.Pos(), c.yieldText(st.Pos(), "stmt")+"; ")
+		kind := "stmt"
+		if c.hotStmt(st) {
+			kind = "hot"
+		}
+		c.insert(st.Pos(), c.yieldText(st.Pos(), kind)+"; ")
 	}
 	inner := st
 	for {
